@@ -474,6 +474,34 @@ FUNC_MODELS[id(_base64.b64decode)] = _b64decode_model
 _KEEP.append(_base64.b64decode)
 
 
+def _translate2(data, a, a2, b, b2):
+    out = []
+    for c in elems_of(data):
+        if isinstance(c, int):
+            out.append(a2 if c == a else (b2 if c == b else c))
+        else:
+            out.append(z3.If(c == a, a2, z3.If(c == b, b2, c)))
+    return mkbytes(out)
+
+
+def _urlsafe_b64encode_model(data):
+    return _translate2(_b64encode_model(data), 43, 45, 47, 95)
+
+
+def _urlsafe_b64decode_model(data):
+    if isinstance(data, (str, SStr)):
+        data = data.encode('ascii')
+    return _b64decode_model(_translate2(data, 45, 43, 95, 47))
+
+
+FUNC_MODELS[id(_base64.urlsafe_b64encode)] = _urlsafe_b64encode_model
+FUNC_MODELS[id(_base64.urlsafe_b64decode)] = _urlsafe_b64decode_model
+FUNC_MODELS[id(_base64.standard_b64encode)] = _b64encode_model
+FUNC_MODELS[id(_base64.standard_b64decode)] = _b64decode_model
+_KEEP.extend([_base64.urlsafe_b64encode, _base64.urlsafe_b64decode,
+              _base64.standard_b64encode, _base64.standard_b64decode])
+
+
 def _hexlify_model(data, *a):
     if a:
         raise Unsupported('hexlify sep')
